@@ -34,6 +34,8 @@ def make(d, rule, rk, rc):
         ext = ""
     elif rule == "weak-rsa":
         kind, alg = "rsa1024", "ps256"
+    elif rule == "weak-rsa-2047":
+        kind, alg = "rsa2047", "ps256"
     elif rule == "sig-alg":
         kw = {"digest": "-sha1"}
     elif rule == "curve":
@@ -82,6 +84,11 @@ def run(ctx):
             add(v, make(d, rule, rk, rc), rule or "ok")
         except K.KitError as e:
             not_driven.append("%s (generation failed: %s)" % (rule, str(e)[:80]))
+    # the key-size rule at its boundary: one bit short of 2048
+    try:
+        add({"violated": ["weak-rsa"], "verdict": "invalid", "code": "signingCredential.invalid"}, make(d, "weak-rsa-2047", rk, rc), "weak-rsa-2047")
+    except K.KitError as e:
+        not_driven.append("weak-rsa-2047 (generation failed: %s)" % str(e)[:80])
     # further conforming controls
     try:
         for label, kind, alg, ext in (("ok-docsign", "ec256", "es256", BASE.replace("emailProtection", "1.3.6.1.5.5.7.3.36")), ("ok-ed25519", "ed25519", "ed25519", BASE), ("ok-rsa2048", "rsa2048", "ps256", BASE), ("ok-ec384", "ec384", "es384", BASE)):
